@@ -11,7 +11,7 @@ LINKS = set()
 
 def mktree(rnd, base, with_dropins=True, broken=0.08):
     """roots, files{abs path: text}; at most one copy of a name per root (readdir order is unspecified within a root)"""
-    roots = [os.path.join(base, r) for r in rnd.sample(['s0', 's1', 's2'], rnd.randint(1, 3))]
+    roots = [os.path.join(base, r) for r in rnd.sample(['s0', 's1', 's2', 's1-extra', 's10'], rnd.randint(1, 3))]   # (the name of one may begin with the name of another: siblings, not parent and child)
     files = {}
     used = set()
     # sub-directories of every kind of name: "recursively, in their subdirectories" has no exception for names that begin with a dot,
@@ -22,6 +22,7 @@ def mktree(rnd, base, with_dropins=True, broken=0.08):
             subs[r].append('sub')
         if '.dot/in' in subs[r] and '.dot' not in subs[r]:
             subs[r].append('.dot')
+    nested = None
     if rnd.random() < 0.2:
         # configured directories may overlap: a sub-directory of a search directory is listed as a search directory of its own, *before* its
         # parent — it keeps that place in the search order (listed after its parent it would add nothing: everything in it was seen)
@@ -43,7 +44,9 @@ def mktree(rnd, base, with_dropins=True, broken=0.08):
                 body += 'Image=localhost/i\nEnvironment=ORIGIN=%s\n' % tag
             else:
                 body += 'Label=origin=%s\n' % tag
-            if rnd.random() < broken:
+            # (a directory that is reached twice is read twice: whether a file in it that cannot be loaded is reported once or twice depends on
+            #  whether a loadable copy was seen in between — on readdir order, which no side models; unit files there are loadable)
+            if rnd.random() < broken and not (nested and (d == nested or d.startswith(nested + '/'))):
                 body = 'garbage before section\n' + body
             files[os.path.join(d, n)] = body
             if rnd.random() < 0.15:
